@@ -132,7 +132,11 @@ fn format_level_harnesses(ctx: &mut vmc::Ctx) {
     let cut1: Vec<RCase> = all
         .iter()
         .filter_map(|c| {
-            if c.workers_apply || matches!(c.format, Format::Csi | Format::Tbi) {
+            if c.name.contains("reblocked") {
+                // the BGZF level harnesses own the block framing; the re-blocked documents are for the
+                // Choose / uniform harnesses
+                None
+            } else if c.workers_apply || matches!(c.format, Format::Csi | Format::Tbi) {
                 let deep = small.iter().any(|s| s.name == c.name);
                 if !deep && !thorough {
                     return None;
@@ -168,7 +172,7 @@ fn format_level_harnesses(ctx: &mut vmc::Ctx) {
     let mut wsmall: Vec<&format_writers::WCase> = Vec::new();
     for f in Format::ALL {
         let mut of: Vec<&format_writers::WCase> = wcases.iter().filter(|c| c.format == f && c.sync_log[0].len() > 2).collect();
-        of.sort_by_key(|c| c.sync_bytes[0].len());
+        of.sort_by_key(|c| (c.name.contains("empty"), c.sync_bytes[0].len()));
         if let Some(c) = of.first() {
             wsmall.push(c);
         }
@@ -179,7 +183,14 @@ fn format_level_harnesses(ctx: &mut vmc::Ctx) {
         ctx.harness(Config::new("fmt_writer_uniform", bu), |ch| format_writers::writer_body(ch, &wall, &workers, &uniform));
     }
     if on("fmt_writer") {
-        ctx.harness(Config::new("fmt_writer", b), |ch| format_writers::writer_body(ch, &wall, &workers, &choose));
+        // documents whose default execution polls the sink more than 150 times (FASTA with 1-base lines:
+        // 1800 polls) get bound 1 in both tiers
+        let (short, long): (Vec<&format_writers::WCase>, Vec<&format_writers::WCase>) = wcases.iter().partition(|c| b <= 1 || format_writers::sink_polls(c) <= 150);
+        ctx.harness(Config::new("fmt_writer", b), |ch| format_writers::writer_body(ch, &short, &workers, &choose));
+        if !long.is_empty() {
+            eprintln!("[C16] fmt_writer_long: {}", long.iter().map(|c| c.name.as_str()).collect::<Vec<_>>().join(" "));
+            ctx.harness(Config::new("fmt_writer_long", 1), |ch| format_writers::writer_body(ch, &long, &workers, &choose));
+        }
     }
     if on("fmt_writer_deep") {
         ctx.harness(Config::new("fmt_writer_deep", bd), |ch| format_writers::writer_body(ch, &wsmall, &workers, &choose));
